@@ -24,6 +24,9 @@ enum Op {
     SaveHeld,
     /// save a held context under a different frag id of the same / another slot (caller's choice)
     SaveHeldAs(u8),
+    /// save a context together with a buffer that never went through provision_storage and is SHORTER than the
+    /// configured size (the trait lets the caller save any buffer)
+    SaveForeign(u8),
 }
 
 fn op_str(o: &Op) -> String {
@@ -34,11 +37,12 @@ fn op_str(o: &Op) -> String {
         Op::TakeFrag(i) => format!("take_frag(id {})", i),
         Op::SaveHeld => "save_frag(held)".into(),
         Op::SaveHeldAs(i) => format!("save_frag(held as id {})", i),
+        Op::SaveForeign(i) => format!("save_frag(new context id {}, foreign {}-byte buffer)", i, PDU_SIZE - 3),
     }
 }
 
 fn ids(slots: usize) -> Vec<u8> {
-    let mut v = vec![0u8, 1, slots as u8, slots as u8 + 1, 255];
+    let mut v = if slots >= 255 { vec![0u8, 1, 254, 255, 128] } else { vec![0u8, 1, slots as u8, slots as u8 + 1, 255] };
     v.dedup();
     v
 }
@@ -223,11 +227,19 @@ impl Sys {
                     }
                 }
             }
-            Op::SaveHeld | Op::SaveHeldAs(_) => {
-                if slots == 0 || self.held.is_empty() {
+            Op::SaveHeld | Op::SaveHeldAs(_) | Op::SaveForeign(_) => {
+                if slots == 0 || (self.held.is_empty() && !matches!(op, Op::SaveForeign(_))) {
                     return Ok(());
                 }
-                let (mut c, b) = self.held.remove(0);
+                let (mut c, b) = if let Op::SaveForeign(i) = op {
+                    self.serial += 1;
+                    let tag = self.next_tag;
+                    self.next_tag = self.next_tag.wrapping_add(1).max(1);
+                    self.lens[tag as usize] = PDU_SIZE - 3;
+                    (ctx(*i, self.serial), mk_buf(tag, PDU_SIZE - 3))
+                } else {
+                    self.held.remove(0)
+                };
                 if let Op::SaveHeldAs(i) = op {
                     c.frag_id = *i;
                 }
@@ -315,7 +327,7 @@ impl Property for Prop {
         "C17"
     }
     fn rule(&self) -> &'static str {
-        "exhaustive: for memories of 1..=4 slots every operation sequence of the given depth (quick 5, thorough 7) over provision(size below / at / above the configured size), new_pdu, new_frag(id), take_frag(id) for ids {0,1,slots,slots+1,255} and save_frag(oldest held context); key = (slots, first two operations); after every operation the result is compared with an executable bag model (free-list capacity calibrated on a fresh memory, not assumed), after every sequence a drained clone is compared with the model. random: seeded sequences of 200..10000 operations incl. save under a different id, slots 1..=4 and 256. Buffers carry a tag in every byte (contents never modified). A sequence is non-trivial when it contains at least one successful save_frag; fingerprint = hash(slots, sequence)."
+        "exhaustive: for memories of 1..=4 slots every operation sequence of the given depth (quick 5, thorough 7) over provision(size below / at / above the configured size), new_pdu, new_frag(id), take_frag(id) for ids {0,1,slots,slots+1,255} and save_frag(oldest held context); key = (slots, first two operations); after every operation the result is compared with an executable bag model (free-list capacity calibrated on a fresh memory, not assumed), after every sequence a drained clone is compared with the model. random: seeded sequences of 200..10000 operations incl. save under a different id and save of a foreign, shorter buffer; slots 1..=5, 7, 255 and 256 (ids 0, 1, 254, 255, 128 there). sizes: configured PDU sizes 0, 1, 255, 256, 4095, 4096, 65535..65537, 70000, 131072 x buffers of size-2..size+1. Buffers carry a tag in every byte (contents never modified). A sequence is non-trivial when it contains at least one successful save_frag; fingerprint = hash(slots, sequence)."
     }
     fn gens(&self, cx: &Cx) -> Vec<Gen> {
         let mut n = 0u64;
@@ -323,7 +335,7 @@ impl Property for Prop {
             let a = alphabet(s).len() as u64;
             n += a * a;
         }
-        vec![Gen { name: "exhaustive", count: n, exhaustive: true }, Gen { name: "random", count: cx.n(400, 20_000), exhaustive: false }]
+        vec![Gen { name: "exhaustive", count: n, exhaustive: true }, Gen { name: "random", count: cx.n(400, 20_000), exhaustive: false }, Gen { name: "sizes", count: 12, exhaustive: true }]
     }
     fn run_key(&self, cx: &Cx, gen: &str, key: u64, rep: &mut Report) {
         let replay_s = format!("gen={} key={} seed={} profile={}", gen, key, cx.seed, cx.profile);
@@ -367,14 +379,47 @@ impl Property for Prop {
                     rep.sample(|| format!("exhaustive: slots {} (calibrated free-list capacity {}), all sequences starting [{}; {}] agree with the bag model", slots, cap, op_str(&seq[0]), op_str(&seq[1])));
                 }
             }
+            "sizes" => {
+                // configured PDU sizes around the 8-, 12- and 16-bit limits: a buffer is accepted iff it is at least
+                // as long as the configured size
+                let size = [0usize, 1, 255, 256, 4095, 4096, 65535, 65536, 65537, 70000, 131072, 100][key as usize];
+                for delta in [-2i64, -1, 0, 1] {
+                    let len = size as i64 + delta;
+                    if len < 0 {
+                        continue;
+                    }
+                    rep.eval();
+                    let mut m = SimpleGseMemory::new(2, size, 0, 0);
+                    let r = guard(|| m.provision_storage(vec![0x5Au8; len as usize].into_boxed_slice()));
+                    let want_ok = len as usize >= size;
+                    match r {
+                        Err(p) => rep.violation("C17", "provision-panic:sizes".into(), || format!("provision_storage panicked (configured size {}, buffer {}): {}", size, len, p), &replay),
+                        Ok(res) => {
+                            let same_back = match &res {
+                                Err(DecapMemoryError::BufferTooSmall(b)) | Err(DecapMemoryError::StorageOverflow(b)) => b.len() == len as usize,
+                                _ => false,
+                            };
+                            if res.is_ok() != want_ok || (!want_ok && !same_back) {
+                                rep.violation("C17", format!("provision-size-rule:{}", if want_ok { "refused" } else { "accepted-or-buffer-lost" }), || format!("memory configured for PDUs of {} bytes: provision_storage of a {}-byte buffer = {}", size, len, if res.is_ok() { "Ok" } else { "Err" }), &replay);
+                            } else {
+                                rep.nontrivial(mix(0x512E, (size as u64) << 3 | (delta + 2) as u64));
+                            }
+                        }
+                    }
+                }
+                rep.count("c17.sequences");
+            }
             "random" => {
                 let mut rng = Rng::derive(cx.seed, fnv(gen.as_bytes()), key);
-                let slots = [1usize, 2, 3, 4, 256][rng.below(5)];
+                let slots = [1usize, 2, 3, 4, 256, 255, 5, 7][rng.below(8)];
                 let cap = calibrate(slots);
                 let n = 200 + rng.below(if cx.quick() { 2000 } else { 9800 });
                 let mut alpha = alphabet(slots);
                 for i in ids(slots) {
                     alpha.push(Op::SaveHeldAs(i));
+                    if i < 2 {
+                        alpha.push(Op::SaveForeign(i));
+                    }
                 }
                 alpha.push(Op::SaveHeld);
                 alpha.push(Op::SaveHeld);
